@@ -113,6 +113,7 @@ func (P *Prog) verifyFunctionCase(fn *ssa.Function, ct *Contract, splitParam str
 		}
 	}
 	ex.entry = st.clone()
+	st.Entry = ex.entry
 	if strings.HasPrefix(splitParam, "?") {
 		// only the exhaustiveness obligation: requires ⇒ lo <= p <= hi
 		pv := fr.params[splitParam[1:]].(Sc)
@@ -287,6 +288,13 @@ func (ex *Exec) modSpecs(fr *Frame, ct *Contract) []modSpec {
 					}
 					out = append(out, modSpec{kind: "ghost", fam: id.Name + "." + gid.Name})
 					continue
+				case "elemfamily":
+					t := env.resolveType(call.Args[0])
+					if t == nil {
+						specErr("elemfamily: unknown type")
+					}
+					out = append(out, modSpec{kind: "elemfamily", fam: typeKey(t)})
+					continue
 				case "mapfamily":
 					t := env.resolveType(call.Args[0])
 					if t == nil {
@@ -435,6 +443,13 @@ func (ex *Exec) frameObligations(fr *Frame, out *State, ct *Contract, kind strin
 					goal = True
 				}
 			}
+		case "elemfamily":
+			goal = False
+			for _, m := range mods {
+				if m.kind == "elemfamily" && m.fam == w.Key {
+					goal = True
+				}
+			}
 		case "map":
 			cov := []*Term{Not(ULt(w.Ref, entry.Alloc))}
 			for _, m := range mods {
@@ -478,6 +493,10 @@ func (ex *Exec) frameObligations(fr *Frame, out *State, ct *Contract, kind strin
 			cov := []*Term{Not(preExistingArray(w.Ref, entry.Alloc))}
 			for _, m := range mods {
 				switch m.kind {
+				case "elemfamily":
+					if m.fam == w.Key {
+						cov = append(cov, True)
+					}
 				case "elems":
 					if typeKey(m.slice.Ty.Underlying().(*types.Slice).Elem()) == w.Key {
 						cov = append(cov, And(Eq(w.Ref, m.slice.Arr), SLe(m.slice.Off, idx), SLt(idx, Add(m.slice.Off, m.slice.Len))))
